@@ -68,7 +68,30 @@ func checkC19(r *Result) []Violation {
 		}
 		return false
 	}
+	// the k-th connection goroutine of the attachment server serves the k-th attachment connection dialled
+	var dialed []int
+	for _, e := range r.Hist {
+		if e.K == KDial && r.Plan.Conns[e.C].Server == "attachment" {
+			dialed = append(dialed, e.C)
+		}
+	}
+	ownerDir := func(g string) string {
+		i := strings.LastIndex(g, "#")
+		if i < 0 || !strings.Contains(g, "conn.run") {
+			return ""
+		}
+		k := 0
+		fmt.Sscanf(g[i+1:], "%d", &k)
+		if k < 1 || k > len(dialed) {
+			return ""
+		}
+		return cwd + "/" + ref.PhoneDigits(r.Plan.Conns[dialed[k-1]].Phone) + "/"
+	}
 	for _, e := range r.FSEffects {
+		if own := ownerDir(e.G); own != "" && e.Path != cwd+"/file.log" && inside(e.Path) && !strings.HasPrefix(e.Path, own) && e.Path+"/" != own {
+			bad("other_terminals_dir", "other_terminals_dir:"+e.Op, fmt.Sprintf("the connection of the terminal with directory %q did %s on %q, inside another terminal's directory", own, e.Op, e.Path), e.Step)
+			return vs
+		}
 		if !inside(e.Path) {
 			bad("outside_terminal_dir", "outside_terminal_dir:"+e.Op, fmt.Sprintf("the attachment server did %s on %q, which is outside the terminals' directories %v", e.Op, e.Path, allowed), e.Step)
 			return vs
